@@ -2,7 +2,7 @@
    kind = property*100 + sub-model.  [run] = what the model says the implementation must
    output on this input; [mon] = the property's monitor applied to the implementation's own
    observed output. *)
-From RainV Require Import Lib Tier Geometry SectionIO Meta Paths Wire Stree AddrList Cache Tracker Announcer Picker Ram InfoDl Magnet Admission PieceDl Leech MetaSess Life Registry Resume.
+From RainV Require Import Lib Tier Geometry SectionIO Meta Paths Wire Stree AddrList Cache Tracker Announcer Picker Ram InfoDl Magnet Admission PieceDl Leech MetaSess Life Registry Resume Priv.
 
 Definition run (kind : Z) (inp : list Z) : list Z :=
   match kind with
@@ -41,6 +41,8 @@ Definition run (kind : Z) (inp : list Z) : list Z :=
   | 1602 => run_udp_parse inp
   | 1603 => run_http_parse inp
   | 1701 => run_ram inp
+  | 1901 => run_priv_flag inp
+  | 1902 => run_priv true inp
   | 1801 => run_blocklist inp
   | 1802 => run_stree inp
   | 1803 => run_addrlist inp
@@ -86,6 +88,8 @@ Definition mon (kind : Z) (inp obs : list Z) : bool :=
   | 1801 => mon_blocklist inp obs
   | 1802 => mon_stree inp obs
   | 1803 => mon_addrlist inp obs
+  | 1901 => list_eqb_Z (run_priv_flag inp) obs
+  | 1902 => list_eqb_Z (run_priv true inp) obs
   | _ => false
   end.
 
